@@ -1,4 +1,6 @@
 import PokerVerif.Lemmas.TBBasic
+import PokerVerif.Lemmas.TBLabels
+import PokerVerif.Lemmas.TBGidx
 import PokerVerif.Props.C07
 /-!
 # C06 — Position labels and next-BB order agree with the button seats
@@ -12,9 +14,13 @@ the seat after the current big blind.
 
 Proved here: the facts about the label table regenerated from `position.go` and about the queue the model hands
 out, for every slot count; that the open hands labels only to dealt-in players' entries through `setPositions`; the
-next-BB list of the model is the spec's list.  The placement of each label on its seat (the walk of
-`updatePlayerPositions`) is checked by the `labelsOK` / `labelClaims` monitors on every opened hand of every run —
-it is not yet a theorem (see DESIGN.md, C06).
+next-BB list of the model is the spec's list.  The walk of `updatePlayerPositions` is factored into a *plan* computed from
+the seat manager alone and its application to the player list (`C06_walk_is_a_plan`); for every seat manager and player
+list meeting the C03 invariant the plan hands labels to dealt-in occupants only, each player at most one label, each label
+at most once, in the standard order clockwise from the big-blind seat, whose dealt-in occupant gets `bb`
+(`C06_placement`, `C06_only_dealt_in_are_labelled`, `C06_bb_first`, `C06_placement_for_every_history`).  Which seat the
+k-th label lands on when the button or the small blind is dead is *not* claimed (D26 / D27 are counter-examples, kept as
+witness theorems); that part stays with the `labelsOK` / `labelClaims` monitors on every opened hand of every run.
 -/
 namespace TB
 
@@ -58,6 +64,132 @@ theorem C06_queue_is_standard (count : Nat) (h2 : 2 ≤ count) (h10 : count ≤ 
   have : count = 2 ∨ count = 3 ∨ count = 4 ∨ count = 5 ∨ count = 6 ∨ count = 7 ∨ count = 8 ∨ count = 9 ∨ count = 10 := by omega
   rcases this with h | h | h | h | h | h | h | h | h <;> subst h <;> decide
 
+/-- no label occurs twice in a queue, whatever the slot count -/
+theorem labelQueue_nodup (count : Nat) : (labelQueue count).Nodup := by
+  by_cases h : 2 ≤ count ∧ count ≤ 10
+  · have : count = 2 ∨ count = 3 ∨ count = 4 ∨ count = 5 ∨ count = 6 ∨ count = 7 ∨ count = 8 ∨ count = 9 ∨ count = 10 := by omega
+    rcases this with h | h | h | h | h | h | h | h | h <;> subst h <;> decide
+  · rw [C06_no_labels_outside count (by omega)]; exact List.nodup_nil
+
+/-- **C06 — `updatePlayerPositions` is "work out from the seat manager who gets which label, then write it down"**: the
+walk over the seats never looks at the player list (`labelPlan` is a function of the seat manager alone) -/
+theorem C06_walk_is_a_plan (sm : SM.State) (ps : List Player) :
+    assignPositions sm ps = (labelPlan sm).map (applyPlan ps) := assignPositions_eq_plan sm ps
+
+/-- **C06 — placement of the labels**: whenever the label walk succeeds (big-blind seat set, no id on two seats of the seat
+manager or twice in the player list — the C03 invariant), there is a plan `pl` of *(id, label)* pairs such that
+1. the ids are, in walk order (clockwise from the big-blind seat), dealt-in occupants of seats of the table, nobody twice;
+2. the labels are, in the same order, labels of the standard queue for the slot count (`C06_queue_is_standard`), none twice;
+3. afterwards a player whose id is in the plan carries exactly the label paired with it, and every other player — in
+   particular everybody who is not dealt in — is exactly as he was.
+Hence no two players share a label, nobody but dealt-in players gets one, and the labels keep the standard order clockwise
+from the big blind.  (Which *seat* the k-th label lands on when the button or the small blind is dead is not claimed:
+findings D26 / D27 show the walk can hand `dealer` to the small-blind seat.) -/
+theorem C06_placement (sm : SM.State) (ps ps' : List Player) (h : assignPositions sm ps = some ps')
+    (hb : 0 ≤ sm.bb) (hu : SM.IdsUnique sm) (hnd : (ps.map (·.id)).Nodup) :
+    ∃ pl : Plan, labelPlan sm = some pl ∧
+      (pl.map (·.1)).Sublist ((walkFromBB sm).filterMap (activeIdAt sm)) ∧ (pl.map (·.1)).Nodup ∧
+      (pl.map (·.2)).Sublist (labelQueue (slotCount sm)) ∧ (pl.map (·.2)).Nodup ∧
+      ∀ k : Nat, ps'[k]? = (ps[k]?).map (fun (p : Player) =>
+        match pl.find? (fun e => e.1 == p.id) with
+        | some e => { p with positions := e.2 }
+        | none => p) := by
+  rw [assignPositions_eq_plan] at h
+  cases hp : labelPlan sm with
+  | none => simp [hp] at h
+  | some pl =>
+    simp only [hp, Option.map_some] at h
+    have hps : ps' = applyPlan ps pl := (Option.some.inj h).symm
+    obtain ⟨s1, s2⟩ := labelPlan_sublists sm pl hp
+    have n1 := labelPlan_ids_nodup sm pl hp hb hu
+    refine ⟨pl, rfl, s1, n1, s2, (labelQueue_nodup _).sublist s2, ?_⟩
+    intro k
+    rw [hps]
+    exact applyPlan_getElem? pl ps hnd n1 k
+
+/-- every id in the plan is the occupant of a seat of the table who is dealt in (`Active()` in the seat manager) -/
+theorem C06_only_dealt_in_are_labelled (sm : SM.State) (pl : Plan) (h : labelPlan sm = some pl) (e : Nat × List String)
+    (he : e ∈ pl) : ∃ seat : Int, 0 ≤ seat ∧ seat < sm.maxSeat ∧ SM.idAt sm seat = some e.1 ∧ SM.activeAt sm.seats seat = true := by
+  have hm : e.1 ∈ (walkFromBB sm).filterMap (activeIdAt sm) :=
+    (labelPlan_sublists sm pl h).1.subset (List.mem_map.mpr ⟨e, he, rfl⟩)
+  obtain ⟨seat, _, hs⟩ := List.mem_filterMap.mp hm
+  exact ⟨seat, activeIdAt_some sm seat e.1 hs⟩
+
+/-- **C06 — … in every reachable state**: for the table reached from `CreateTable` by any history (legal recorded seat
+draws), whichever way the seat manager moved the buttons (`sm'` with the same occupants, as `InitPositions` /
+`RotatePositions` leave them, and a big-blind seat), a successful `openGame` labels the players as `C06_placement` says -/
+theorem C06_placement_for_every_history (cfg : Meta) (b : Blind) (evs : List Event) (hl : DrawsLegal (create cfg b) evs)
+    (sm' : SM.State) (hid : ∀ i, SM.idAt sm' i = SM.idAt (run (create cfg b) evs).sm i)
+    (hmax : sm'.maxSeat = (run (create cfg b) evs).sm.maxSeat) (hb : 0 ≤ sm'.bb)
+    (hop : (openTable (run (create cfg b) evs) sm').2 = .opened) :
+    ∃ pl : Plan, labelPlan sm' = some pl ∧ (pl.map (·.1)).Nodup ∧
+      (pl.map (·.2)).Sublist (labelQueue (slotCount sm')) ∧ (pl.map (·.2)).Nodup ∧
+      (∀ e ∈ pl, ∃ seat : Int, 0 ≤ seat ∧ seat < sm'.maxSeat ∧ SM.idAt sm' seat = some e.1 ∧ SM.activeAt sm'.seats seat = true) ∧
+      ∀ k : Nat, ((openTable (run (create cfg b) evs) sm').1.players[k]?).map (fun (p : Player) => (p.id, p.positions)) =
+        ((run (create cfg b) evs).players[k]?).map (fun (p : Player) =>
+          (p.id, match pl.find? (fun e => e.1 == p.id) with | some e => e.2 | none => p.positions)) := by
+  obtain ⟨hbk, hag, _⟩ := run_inv3 _ evs (create_inv3 cfg b) hl
+  obtain ⟨ps, gi, ps2, hm, _, hap, heq⟩ := openTable_opened_shape _ sm' hop
+  have hu : SM.IdsUnique sm' := by
+    intro i j x hi0 hin hj0 hjn hxi hxj
+    rw [hmax] at hin hjn
+    rw [hid] at hxi hxj
+    exact sm_unique _ hbk hag i j x hi0 hin hj0 hjn hxi hxj
+  have hids : ps.map (·.id) = (run (create cfg b) evs).players.map (·.id) := mapM_keeps (·.id) (fun _ _ => rfl) sm' _ _ hm
+  have hpos : ps.map (·.positions) = (run (create cfg b) evs).players.map (·.positions) :=
+    mapM_keeps (·.positions) (fun _ _ => rfl) sm' _ _ hm
+  obtain ⟨pl, hp, _, n1, s2, n2, hfin⟩ := C06_placement sm' ps ps2 hap hb hu (by rw [hids]; exact hag.ids)
+  refine ⟨pl, hp, n1, s2, n2, fun e he => C06_only_dealt_in_are_labelled sm' pl hp e he, ?_⟩
+  intro k
+  rw [heq]
+  simp only [openedState]
+  rw [hfin k]
+  have e1 := (getElem?_of_map_eq (·.id) ps (run (create cfg b) evs).players hids.symm k).symm
+  have e2 := (getElem?_of_map_eq (·.positions) ps (run (create cfg b) evs).players hpos.symm k).symm
+  cases hk : ps[k]? with
+  | none =>
+    rw [hk] at e1
+    cases hk2 : (run (create cfg b) evs).players[k]? with
+    | none => rfl
+    | some q => rw [hk2] at e1; cases e1
+  | some p =>
+    rw [hk] at e1 e2
+    cases hk2 : (run (create cfg b) evs).players[k]? with
+    | none => rw [hk2] at e1; cases e1
+    | some q =>
+      rw [hk2] at e1 e2
+      simp only [Option.map_some] at e1 e2 ⊢
+      have i1 : p.id = q.id := Option.some.inj e1
+      have i2 : p.positions = q.positions := Option.some.inj e2
+      rw [i1]
+      cases pl.find? (fun e => e.1 == q.id) with
+      | none => simp [i1, i2]
+      | some e => simp [i1]
+
+/-- **C06 — the player in the big-blind seat is labelled bb**: the walk starts on the big-blind seat; when its occupant
+is dealt in (C04: it always is after an accepted rotation) and the slot count is one the label table knows (2..10), he is
+the first of the plan and his label is `bb` -/
+theorem C06_bb_first (sm : SM.State) (pl : Plan) (h : labelPlan sm = some pl) (hb0 : 0 ≤ sm.bb) (hbn : sm.bb < sm.maxSeat)
+    (id : Nat) (hact : activeIdAt sm sm.bb = some id) (h2 : 2 ≤ slotCount sm) (h10 : slotCount sm ≤ 10) :
+    pl.head? = some (id, ["bb"]) := by
+  have hh := (C06_queue (slotCount sm) h2 h10).2.1
+  cases hq : labelQueue (slotCount sm) with
+  | nil => rw [hq] at hh; cases hh
+  | cons hd rest =>
+    rw [hq] at hh
+    have : hd = ["bb"] := Option.some.inj hh
+    subst this
+    exact labelPlan_head sm pl h hb0 hbn id hact _ rest hq
+
+-- non-vacuity of `C06_placement` / `C06_bb_first`: the 4-seat table of the example below just after its first open — the
+-- hypotheses hold, the plan is the three dealt-in players clockwise from the big blind with bb, dealer, sb
+example : let t := (gateFire (setup (start (join (join (join (reserve (reserve (reserve (create exCfg exBlind)
+      { id := 1, chips := 500, seat := 0 } []).1 { id := 2, chips := 300, seat := 2 } []).1 { id := 3, chips := 200, seat := 3 } []).1
+      1).1 2).1 3).1) 0 [(1, 0), (2, 1), (3, 2)]) (some 0) true).1
+    0 ≤ t.sm.bb ∧ t.sm.bb < t.sm.maxSeat ∧ slotCount t.sm = 3 ∧ activeIdAt t.sm t.sm.bb = some 1 ∧
+    labelPlan t.sm = some [(1, ["bb"]), (2, ["dealer"]), (3, ["sb"])] ∧
+    (walkFromBB t.sm).filterMap (activeIdAt t.sm) = [1, 2, 3] := by decide
+
 /-- D26: the button and the small blind bust in the same hand and newcomers sit beyond them: the big blind passes the
 dead button seat. 6 seats, hand played with D=0 SB=1 BB=5; seats 0 and 1 bust, newcomers wait on seats 2 and 4. -/
 def witnessD26 : SM.State :=
@@ -82,6 +214,11 @@ theorem C06_sb_label_fails_on_witness :
     ((SM.rotateDefault witnessD26).1.dealer, (SM.rotateDefault witnessD26).1.sb, (SM.rotateDefault witnessD26).1.bb) = (1, 5, 2) ∧
     (assignPositions (SM.rotateDefault witnessD26).1 witnessD26Players).map (fun ps => ps.map (fun p => (p.id, p.positions))) =
       some [(1, []), (2, []), (3, ["dealer"]), (4, ["ug"]), (5, ["bb"])] := by decide
+
+-- … and on the D26 witness (dead button, dead small blind) the plan is still made of dealt-in players and queue labels in
+-- order, each once — but the small-blind seat's player is handed `dealer`
+example : labelPlan (SM.rotateDefault witnessD26).1 = some [(5, ["bb"]), (4, ["ug"]), (3, ["dealer"])] ∧
+    labelQueue (slotCount (SM.rotateDefault witnessD26).1) = [["bb"], ["ug"], ["dealer"], ["sb"]] := by decide
 
 /-- D27: a player who reserved before the first hand and sat in during it (no waiting flag) on the seat between the small
 and the big blind; the small blind busts and leaves. 4 seats, hand played with D=3 SB=0 BB=2, seat 0 now empty. -/
